@@ -25,7 +25,10 @@ TCompiled == /\ Ev("compiled")
 TCutset == /\ Ev("cutset")
            /\ devs' = Add(devs, CutsetTags(I, HT, inp, res, {SP(Rec[l].nodes[i]) : i \in DOMAIN Rec[l].nodes}))
            /\ UNCHANGED <<I, HT, inp, res, run>>
-Next == TReset \/ TCompile \/ TCompiled \/ TCutset
+TPanic == /\ Ev("panic")
+          /\ devs' = Add(devs, {IF Rec[l].where = "drain" THEN "C08 panic" ELSE IF inp # <<>> /\ inp.type = "relaxed" THEN "C06 panic" ELSE "C07 panic"})
+          /\ UNCHANGED <<I, HT, inp, res, run>>
+Next == TReset \/ TCompile \/ TCompiled \/ TCutset \/ TPanic
 Spec == Init /\ [][Next]_vars
 Report == l = Len(Rec) + 1 => PrintT(<<"RESULT", ToJson([total |-> Len(Rec), devs |-> devs])>>)
 Accepted == TLCGet("stats").diameter - 1 = Len(Rec)
